@@ -37,6 +37,9 @@ type Imp struct {
 	Path   string
 	Unused bool // no symbol of the imported file is referenced by the generated source
 	Public bool
+	// Weak renders `import weak "…";` (descriptor field weak_dependency; legal in every syntax).
+	// Only generated with Opts.RichImports (C01).
+	Weak bool
 	// EffUnused, when set, is what the compiler reported for this import in an independent run
 	// (with public imports a referenced symbol may be found through an earlier import, so the
 	// generator's intent is not always the compiler's verdict); used only for the model line.
@@ -197,6 +200,8 @@ func (f *File) Source() (string, int, int) {
 	for _, imp := range f.Imports {
 		if imp.Public {
 			lines = append(lines, `import public "`+imp.Path+`";`)
+		} else if imp.Weak {
+			lines = append(lines, `import weak "`+imp.Path+`";`)
 		} else {
 			lines = append(lines, `import "`+imp.Path+`";`)
 		}
@@ -232,6 +237,9 @@ func (f *File) Source() (string, int, int) {
 	return strings.Join(lines, "\n") + "\n", fl, fc
 }
 
+// CommitUUID is the commit id of the remote module (name, commit number).
+func CommitUUID(name string, commit int) uuid.UUID { return commitUUID(name, commit) }
+
 func commitUUID(name string, commit int) uuid.UUID {
 	return uuid.NewSHA1(uuid.NameSpaceURL, []byte(name+"#"+strconv.Itoa(commit)))
 }
@@ -246,6 +254,10 @@ type Opts struct {
 	MoreTargets bool   // C01: more --path / --exclude-path / proto-file selections
 	MaxMods     int
 	CommitTies  bool // allow distinct commits of one module with equal create times (C10 only)
+	// RichImports (C01): weak imports, unused public imports and longer import lists, so that
+	// dependency / public_dependency / weak_dependency / unused_dependency all carry several
+	// indexes in every relative order.  Draws extra random numbers only when set.
+	RichImports bool
 }
 
 // Gen generates one workspace.
@@ -336,6 +348,9 @@ func Gen(r *hx.Rand, o Opts) *WS {
 			f := &a.Files[j]
 			me := pos[fileRef{i, f.Path}]
 			nImp := r.Intn(4)
+			if o.RichImports && r.Chance(1, 3) {
+				nImp = 2 + r.Intn(5)
+			}
 			if _, isWkt := wktMsg[f.Path]; isWkt {
 				nImp = 0 // a substitute WKT stays a leaf, like the original
 			}
@@ -366,6 +381,15 @@ func Gen(r *hx.Rand, o Opts) *WS {
 				if imp.Path != "missing/none.proto" {
 					imp.Unused = r.Chance(1, 5)
 					imp.Public = !imp.Unused && r.Chance(1, 8)
+					if o.RichImports {
+						switch {
+						case imp.Public:
+						case r.Chance(1, 5):
+							imp.Weak = true
+						case imp.Unused && r.Chance(1, 4):
+							imp.Public = true // an unused public import: the compiler does not flag it
+						}
+					}
 				}
 				f.Imports = append(f.Imports, imp)
 			}
